@@ -161,6 +161,12 @@ Theorem C09_release_config : nochecks_of CRelease = true /\
 Proof. exact release_config. Qed.
 Print Assumptions C09_release_config.
 
+(* -fwrapv reaches every compiler of the GNU family (gcc, clang, zig cc, emcc, g++, clang++): the fact base_mode,
+   and so the next theorem, depends on *)
+Theorem C09_every_gnu_compiler_wraps : forallb (fun b => b) gnu_family_base_has_fwrapv = true /\ m_wrapv base_mode = true.
+Proof. exact every_gnu_compiler_wraps. Qed.
+Print Assumptions C09_every_gnu_compiler_wraps.
+
 (* the plain operators are UB-free in the dialect the base flags select; they are not without -fwrapv *)
 Theorem C09_plain_ops_defined_with_base_flags : forall t a b,
   op_add base_mode t a b <> OUB /\ op_sub base_mode t a b <> OUB /\ op_mul base_mode t a b <> OUB /\
